@@ -298,6 +298,21 @@ func runProperty(w *World, res *checkResult, thorough bool, timeoutMs int) {
 				all = append(all, o)
 			}
 		}
+		if fc := w.cs.Funcs[k]; fc.Implements != "" {
+			d := w.ifaceAsContract(fc)
+			if d == nil {
+				res.Orphans = append(res.Orphans, shortKey(k)+" implements "+fc.Implements)
+				continue
+			}
+			r2 := w.verifyFunc(fn, d, safetyTags, false)
+			r2.Key += "@iface"
+			res.Funcs = append(res.Funcs, r2)
+			for _, o := range r2.Obls {
+				if !strings.HasPrefix(o.Kind, "safety:") && o.Kind != "cover" && (thorough || relevant(o, p)) {
+					all = append(all, o)
+				}
+			}
+		}
 	}
 	// every contract must name an existing function (any property): orphan detection for this property's tags
 	for k, fc := range w.cs.Funcs {
